@@ -4,11 +4,12 @@ from __future__ import annotations
 from .. import gen
 from ..core import Ctx, Result
 from ..pipeline import finalize_cov, mk_spec, run_pipeline
+from ..unitlib import mc_or_die
 
 # strata: every quick run draws from each of them (DESIGN.md §6)
 PROFILES = [
     ("random", {}),
-    ("period-varying-space", {"p_r": 1.0, "p_per_filter": 1.0, "T": [2, 3]}),
+    ("period-varying-space", {"p_r": 1.0, "p_per_filter": 1.0, "p_state_filter": 0.5, "T": [2, 3, 4], "max_cells": 1000}),
     ("two-stochastic", {"p_h": 1.0, "p_h_stoch": 1.0, "p_e": 1.0, "T": [2, 3], "p_z": 0.0}),
     ("two-continuous-states", {"p_w": 1.0, "p_z": 1.0, "p_e": 0.0, "T": [2, 3]}),
     ("discrete-only", {"p_w": 0.0, "p_z": 0.0, "p_h": 1.0, "p_r": 0.7, "p_e": 0.5}),
@@ -42,12 +43,20 @@ def make_specs(ctx: Ctx, n):
 
 def run(ctx: Ctx) -> Result:
     res = Result(ctx.prop)
+    # (MC) the implementation-shaped backward loop (spec/Solve.tla) computes the declarative Bellman solution
+    # for every model of the family defined in spec/MC_Solve.tla
+    mc = mc_or_die("MC_Solve", "MC_Solve_thorough.cfg" if ctx.thorough else "MC_Solve.cfg", workers=16)
     specs = make_specs(ctx, ctx.n(100, 1500))
     run_pipeline(ctx, res, specs, nontrivial=nontrivial)
+    res.merge_cov(states=mc["distinct"], transitions=mc["generated"], mc_states=mc["distinct"])
     finalize_cov(res, "seeded random model descriptions, 10 feature strata in rotation; distinct = different "
                       "(model, plan) hash; non-trivial = T >= 2 and a filter or constraint and a continuous or "
                       "stochastic state (so masking, interpolation/expectation and continuation all matter)")
     res.assumptions += [
+        "MC_Solve: for every model of a TLA+-defined family (all filter masks of a 2x2 restricted state/choice pair, different in "
+        "period 0 and later; quick 150 models, thorough 5400 incl. a stochastic state, T 1-3) the implementation-shaped machine "
+        "equals the declarative solution in every period; with the state indexer of the current period (the repaired defect D2) "
+        "TLC finds a counterexample (MC_Solve_d2.cfg, run by the self-test)",
         "oracle: exact rational Bellman semantics in TLA+ (spec/Bellman.tla), evaluated by TLC on every grid state of every period",
         "agreement is required up to 2^-12 (1+|v|) (2^-7 in the inexact strata); exact equality is recorded separately",
         "models outside the scope of C01 (a transition into a filter-excluded state, ill-defined -inf arithmetic) are counted as out_of_scope",
